@@ -1,21 +1,32 @@
 PROP = {
     "level": "exploration",
     "technique": ("runtime monitor over the real lnwire/tlv codecs: totality (no panic / process-fatal, allocation bound), "
-                  "byte fixpoint b->m1->b1->m2->b2, lossless round trip of generated values and of harness-built boundary "
+                  "byte fixpoint b->m1->b1->m2->b2 and value fixpoint m1 == m2 (normalising structural equality, m1 taken from an "
+                  "independent second decode), lossless round trip of generated values, of field-domain values (one scalar "
+                  "leaf of a generated value at a time at 0/1/2/3/single bits/max/max-1/PRNG, found by reflection incl. TLV "
+                  "record wrappers) and of harness-built boundary "
                   "values (every variable-length field at 0/1/representation boundaries/field limit/largest that fits "
                   "65535, refusals judged against the harness's own size computation), differential oracle "
                   "(independent canonical-TLV recogniser) for tlv.Stream"),
     "level_text": ("Every message type accepted by makeEmptyMessage (plus custom types) and every onion failure code "
                    "(message and padded packet form) is decoded from generated valid encodings (lnwire's own rapid "
                    "generators driven deterministically by the case seed), structure-aware mutants of them and raw bytes; "
-                   "every accepted input must reach a byte fixpoint after one re-encode, generated values must round-trip "
-                   "losslessly within 65535 bytes; on every visit of a message type every variable-length field of it (addresses of all "
+                   "every accepted input must reach a byte fixpoint after one re-encode AND the re-encoding must decode to a message "
+                   "equal to the first decode (oracle reencode_decodes_equal, key = decoded type + first differing field); generated "
+                   "values must round-trip losslessly within 65535 bytes; on every visit of a message type / failure code a generated value "
+                   "is walked by reflection and up to 20 (thorough 32) of its scalar leaves (bool, (u)int8..64 and named enum/flag types, "
+                   "elements of fixed-size byte arrays, also inside tlv.RecordT/OptionalRecordT/fn.Option/BigSizeT and unexported fields) are "
+                   "set one at a time to 0,1,2,3,max,max-1,max/2,max/2+1, single bits (all for <= 16-bit leaves) and PRNG values; the value "
+                   "must encode (or be refused), stay <= 65535 bytes, decode to a value equal to a pristine copy and re-encode identically "
+                   "(oracle wellformed_roundtrip keys ...|value-differs|fd:<leaf>, ...|reencode-differs|fd:<leaf>); on every visit of a message type every variable-length field of it (addresses of all "
                    "kinds incl. dns hostnames of 1,2,63,64,127,128,251-255 bytes and address lists filling the message, feature "
                    "vectors, alias, scripts, error/warning data, ping/pong padding, reasons, blobs, extra opaque data, custom records, "
                    "htlc signature counts, scid lists plain/zlib, timestamps, nonce maps) is put at its boundary lengths and "
                    "round-tripped (oracle wellformed_roundtrip: own-encoding-rejected / reencode-differs / value-differs / "
                    "encode-refused-within-limits); the TLV extension of every message that has one is mutated in isolation "
-                   "(record lengths, non-minimal BigSize, swap/dup/truncate/lower type) and an accepted message must carry an "
+                   "(record lengths, non-minimal BigSize, swap/dup/truncate/lower type, and value-domain mutants: one record of 1..8 value bytes "
+               "at the same boundary values, and every record type the encoder emits for that message but elided in this encoding "
+               "inserted with boundary values) and an accepted message must carry an "
                    "extension that an independent BOLT-1 walker accepts; in module tlv the four Stream decode entry points must accept exactly "
                    "the streams an independent reference recogniser calls canonical and re-encode them byte-identically."),
     "level_note": ("Sampled, not exhaustive. A hang shows up as the shard watchdog (inconclusive), not as a violation. "
@@ -25,9 +36,21 @@ PROP = {
     "design_ref": "DESIGN.md §3 C10",
     "rule": ("An input is one byte string handed to a real decoder. Non-trivial = the decoder was actually run on it. "
              "distinct = distinct (target message type / failure code / tlv mutation class, input class, accepted|rejected "
-             "[, reference reason]) tuples observed."),
+             "[, reference reason]) tuples observed; a field-domain value counts as (target, leaf path, ok|refused|rejected)."),
     "assumptions": ["protocol version 0 only",
-                    "value equality after decode is judged with nil==empty for slices/maps (wire-invisible representation)",
+                    "value equality after decode is judged with nil==empty for slices/maps and the 4-/16-byte forms of one IPv4 address "
+                    "equal (wire-invisible representation); ExtraOpaqueData fields are compared record-wise: for the 14 message types of "
+                    "KF-C10-6 (Encode rebuilds ExtraData from typed records) a lost unknown record is reported under the known key "
+                    "unknown_records_preserved <msg>|unknown-records-dropped-on-reencode and differences confined to record types the encoder "
+                    "emits itself are diagnostics (raw copy of typed fields, judged through the typed fields); for every other owner any "
+                    "byte difference is a verdict",
+                    "field-domain generator: leaves not generated: Sig.sigType, QueryShortChanIDs/ReplyChannelRange.noSort, Color.A (not "
+                    "carried by the wire), Custom.Type (discriminator), fn.Option presence, foreign structs (public keys, net.TCPAddr, "
+                    "tor.OnionAddr), maps, strings and variable-length byte content (c10wf covers lengths); ShortChannelID.BlockHeight/TxIndex "
+                    "stay within 24 bits; cross-field constraints enforced by the harness on both copies: htlc_maximum_msat = 0 when "
+                    "message_flags bit 0 is clear, short channel ids ascending (timestamps follow), DynCommit carries one channel id; an "
+                    "encoder refusal is not a violation; an encoder panic and a decoder rejection of the encoder's own output are diagnostics "
+                    "(fd_encode_panic, fd_own_encoding_rejected: nonces / alias / duplicate ids / dns port 0)",
                     "ext_accept_implies_canonical is a diagnostic for the 9 message types whose Decode keeps the extension as "
                     "opaque bytes on the pinned tree (stfu, dyn_reject, update_fail_htlc, update_fee, update_fail_malformed_htlc, "
                     "announcement_signatures, query_short_channel_ids, reply_short_channel_ids_end, kickoff_sig)",
@@ -47,13 +70,18 @@ PROP = {
     "units": [
         {
             "name": "lnwire", "pkg": "lnwire", "test": "TestVerifC10",
-            "files": ["lnwire/c10_test.go", "lnwire/c10wf_test.go"],
+            "files": ["lnwire/c10_test.go", "lnwire/c10wf_test.go", "lnwire/c10fd_test.go"],
             "shards": {"quick": 8, "thorough": 16},
             "fatal_is_violation": True,
-            "floors": {"quick": {"decodes": 225000, "accepted": 70000, "rejected": 150000, "fixpoint_evals": 59000,
-                                 "lossless_evals": 2280, "alloc_evals": 95000, "ext_decodes": 36000,
-                                 "ext_accept_implies_canonical_evals": 12000, "ext_reencode_evals": 2900,
-                                 "unknown_records_preserved_evals": 2900,
+            "floors": {"quick": {"decodes": 285000, "accepted": 130000, "rejected": 155000, "fixpoint_evals": 93000,
+                                 "lossless_evals": 2280, "alloc_evals": 95000, "ext_decodes": 58000,
+                                 "ext_accept_implies_canonical_evals": 33000, "ext_reencode_evals": 23000,
+                                 "unknown_records_preserved_evals": 23000,
+                                 # value fixpoint + field-domain values + extension value-domain mutants (c10fd_test.go)
+                                 "reencode_decodes_equal_evals": 93000, "ext_fixpoint_evals": 33000,
+                                 "ext_valdom_mutants": 22000, "ext_valdom_accepted": 21000,
+                                 "fd_values": 37500, "fd_roundtrip_evals": 37500, "fd_typed_fields_equal": 37000,
+                                 "fd_leaves": 3500,
                                  # well-formed boundary values (c10wf_test.go); the per-round volumes are
                                  # fixed by construction, floors = half of the measured value
                                  "wf_values": 4578, "wellformed_roundtrip_evals": 4264, "wf_roundtrip_ok": 4204,
@@ -64,10 +92,14 @@ PROP = {
                                  "wf_na2_addrs": 144, "wf_nonces": 60, "wf_padding": 96, "wf_reason": 54,
                                  "wf_scids_plain": 96, "wf_scids_zlib": 120, "wf_script": 210, "wf_sigs": 54,
                                  "wf_timestamps": 48},
-                       "thorough": {"decodes": 7500000, "accepted": 2300000, "rejected": 5000000,
-                                    "fixpoint_evals": 1900000, "lossless_evals": 76000, "alloc_evals": 3200000,
-                                    "ext_decodes": 1200000, "ext_accept_implies_canonical_evals": 400000,
-                                    "ext_reencode_evals": 95000,
+                       "thorough": {"decodes": 9500000, "accepted": 4300000, "rejected": 5100000,
+                                    "fixpoint_evals": 3100000, "lossless_evals": 76000, "alloc_evals": 3200000,
+                                    "ext_decodes": 1900000, "ext_accept_implies_canonical_evals": 1100000,
+                                    "ext_reencode_evals": 760000,
+                                    "reencode_decodes_equal_evals": 3100000, "ext_fixpoint_evals": 1100000,
+                                    "ext_valdom_mutants": 730000, "ext_valdom_accepted": 700000,
+                                    "fd_values": 1450000, "fd_roundtrip_evals": 1450000,
+                                    "fd_typed_fields_equal": 1430000, "fd_leaves": 116000,
                                     "wf_values": 152600, "wellformed_roundtrip_evals": 142133, "wf_roundtrip_ok": 140133,
                                     "wf_roundtrip_ok_at_limit": 16933, "wf_encode_refused_oversize": 10333,
                                     "wf_addrs": 1800, "wf_addrs_dns": 13200, "wf_addrs_maxfit": 1800, "wf_alias": 1600,
@@ -80,7 +112,7 @@ PROP = {
         },
         {
             "name": "lnwire_race", "pkg": "lnwire", "test": "TestVerifC10Race",
-            "files": ["lnwire/c10_test.go", "lnwire/c10wf_test.go"],
+            "files": ["lnwire/c10_test.go", "lnwire/c10wf_test.go", "lnwire/c10fd_test.go"],
             "tiers": ["thorough"],
             "race": {"quick": True, "thorough": True},
             "shards": {"quick": 8, "thorough": 16},
